@@ -103,6 +103,11 @@ def gen_trace(recipe):
       beta = float(rng.choice([0.0, 0.25, 0.5, 1.0, 2.0, 3.5]))
       # min_rate dyadic (so the float test 1 - fpr >= min_rate agrees with the exact one)
       min_rate = float(rng.choice([0.0, 0.125, 0.25, 0.5, 0.75, 0.875, 1.0]))
+      if rng.random() < 0.2:
+        # validation distances of ANY magnitude: the same layout stretched by 2^57 about each pair's first point (all learned
+        # distances then exceed 2^53, where d + 1 == d), or shrunk by 2^-30
+        f = float(rng.choice([2.0 ** 57, 2.0 ** -30]))
+        pairs = np.stack([pairs[:, 0], pairs[:, 0] + (pairs[:, 1] - pairs[:, 0]) * f], axis=1)
       events.append(cal_event(est, pairs, lab, strategy, beta, min_rate))
   elif recipe['src'] == 'boundary':
     # rates that hit min_rate EXACTLY (as the fraction the user typed): n_neg (resp. n_pos) in {5, 10}, min_rate = j / 10
@@ -163,7 +168,7 @@ def gen_trace(recipe):
         pass
   elif recipe['src'] == 'invalid':
     pairs, lab = tr['fit_args']
-    vals = {'none': None, 'nonnumber': 'x', 'below0': -0.5, 'above1': 1.5, 'ok': 0.5}
+    vals = {'none': None, 'nonnumber': 'x', 'below0': -0.5, 'above1': 1.5, 'nan': float('nan'), 'ok': 0.5}
     bvals = {'none': None, 'nonnumber': 'x', 'ok': 1.0}
     for strategy in ['accuracy', 'f_beta', 'max_tpr', 'max_tnr', 'bogus']:
       for mk, mv in vals.items():
